@@ -14,6 +14,14 @@ VERIF = facts.VERIF
 EVID = os.path.join(VERIF, 'evidence')
 
 
+class PState:
+    """what rules may read of a path's final state"""
+    __slots__ = ('assume',)
+
+    def __init__(self, assume):
+        self.assume = assume
+
+
 class Path:
     """one return state of a summarised function"""
     __slots__ = ('outcome', 'value', 'payload', 'events', 'state')
@@ -28,7 +36,7 @@ class Path:
             self.payload = ret
         self.value = ret
         self.events = st.events
-        self.state = st
+        self.state = PState(dict(st.assume))
 
     @property
     def ok(self):
@@ -59,7 +67,7 @@ class Summary:
         self.notes = list(I.notes)
         self.unmodelled = dict(I.unmodelled)
         self.params = params
-        self.interp = I
+        self.len_log = []
 
     @property
     def ok_paths(self):
@@ -100,18 +108,64 @@ class Ctx:
     def gbody(self, suffix):
         return [b for b in self.g['bodies'] if b['path'].endswith(suffix)]
 
+    def _code_hash(self):
+        if not hasattr(self, '_ch'):
+            import hashlib
+            h = hashlib.sha256()
+            here = os.path.dirname(os.path.abspath(__file__))
+            for fn in ('interp.py', 'models.py', 'terms.py', 'core.py'):
+                h.update(open(os.path.join(here, fn), 'rb').read())
+            self._ch = h.hexdigest()[:16]
+        return self._ch
+
     def summary(self, suite_name, generic_path, params=None, **kw):
         key = (suite_name, generic_path, tuple(sorted(kw.items())), tuple(params) if params else None)
-        if key not in self._summ:
-            S = self.suite(suite_name)
-            b = S.find(generic_path)
-            if params is None:
-                ps = [Sym(l['name'] or 'arg%d' % i) for i, l in enumerate(b['locals'][1:1 + b['argc']], 1)]
-            else:
-                ps = list(params)
-            I, outs = interp.summarize(S, b, ps, adts=self.adts, **kw)
-            self._summ[key] = Summary(b, I, outs, ps)
-        return self._summ[key]
+        if key in self._summ:
+            return self._summ[key]
+        import hashlib
+        import pickle
+        S = self.suite(suite_name)
+        b = S.find(generic_path)
+        if params is None:
+            ps = [Sym(l['name'] or 'arg%d' % i) for i, l in enumerate(b['locals'][1:1 + b['argc']], 1)]
+        else:
+            ps = list(params)
+        # summaries are shared between the check processes of one sweep (keyed by facts dir, interpreter sources and the query)
+        cdir = os.path.join(self.dir, 'summ-' + self._code_hash())
+        ck = hashlib.sha256(repr((suite_name, generic_path, sorted(kw.items()), ps)).encode()).hexdigest()[:32]
+        cpath = os.path.join(cdir, ck + '.pkl')
+        summ = None
+        if os.path.exists(cpath) and not os.environ.get('OPQ_NO_SUMMARY_CACHE'):
+            try:
+                with open(cpath, 'rb') as f:
+                    summ = pickle.load(f)
+                summ.body = b
+                terms.use_suite(S.name)
+                for t, n in summ.len_log:
+                    terms.note_len(t, n)
+            except Exception:
+                summ = None
+        if summ is None:
+            terms.LEN_LOG = []
+            try:
+                I, outs = interp.summarize(S, b, ps, adts=self.adts, **kw)
+                summ = Summary(b, I, outs, ps)
+                summ.len_log = terms.LEN_LOG
+            finally:
+                terms.LEN_LOG = None
+            try:
+                os.makedirs(cdir, exist_ok=True)
+                tmp = cpath + '.%d.tmp' % os.getpid()
+                body = summ.body
+                summ.body = None
+                with open(tmp, 'wb') as f:
+                    pickle.dump(summ, f, protocol=pickle.HIGHEST_PROTOCOL)
+                summ.body = body
+                os.replace(tmp, cpath)
+            except Exception:
+                summ.body = b
+        self._summ[key] = summ
+        return summ
 
 
 def rel(span):
